@@ -163,3 +163,64 @@ META = {
                     'outside the claim: names longer than the bounds; uniqueness over a whole emitted program; variant_struct_name; local renaming'],
     'trusted_base': ['mirsym MIR interpreter', 'std library models (evidence: library_models)', 'z3', 'rustc nightly MIR dump', 'rustdoc JSON type tables'],
 }
+
+# ----------------------------------------------------------------------------- O19.5 compiler temporaries vs user-chosen top-level names
+def gensym_prefixes():
+    """prefixes passed to Gensym::gensym, read from the MIR of the current tree (constant string operands of the calls)"""
+    import re
+    W = e2.world(CRATES); text = W.files['compiler'].text; out = set()
+    for m in re.finditer(r'Gensym::gensym\((?:copy|move) _\d+, (?:(?:copy|move) (_\d+)|const "([^"]*)")\)', text):
+        if m.group(2) is not None: out.add(m.group(2)); continue
+        start = text.rfind('\nfn ', 0, m.start()); window = text[start:m.start()]
+        d = re.findall(r'\b%s = const "([^"]*)";' % re.escape(m.group(1)), window)
+        if d: out.add(d[-1])
+    return sorted(out)
+
+def ob_gensym_vs_user(r, tier, seed):
+    import os, subprocess, tempfile, shutil
+    W = e2.fresh_world(CRATES)
+    prefixes = gensym_prefixes()
+    if not prefixes: raise Unsupported('no Gensym::gensym call sites found in the MIR dump')
+    counters = [0, 3, 12]
+    r.bounds = 'Gensym::gensym for every prefix used in the compiler %s and counter values %s, against every user identifier of <= 5 characters over [a-z0-9_] (symbolic) passed through go_ident' % (prefixes, counters)
+    r.assumptions = ['top-level user names (functions) are emitted through go_ident without a uniquifying suffix; locals get `__<id>` and are not considered',
+                     'a user identifier is [A-Za-z_][A-Za-z0-9_]* (the lexer\'s identifier class)']
+    found = None
+    for pre in prefixes:
+        for cnt in counters:
+            def entry(ex, pre=pre, cnt=cnt):
+                h = {0: ms.engine.Agg('compiler::env::Gensym', 0, [ms.engine.Cell_(cnt)])}
+                return ex.call('env::Gensym::gensym', [ms.Ref(h, 0), ms.mkstr(pre)])
+            res = e2.explore(r, W, entry, [])
+            for p in res:
+                r.cases += 1
+                if p.kind != 'ok': raise Unsupported('gensym panicked: %s' % p.value)
+                tmp = p.value.chars; n = len(tmp)
+                if n > 5: continue
+                cs, ass, res2 = run_go_ident(r, W, 'u', n, 'abcdefghijklmnopqrstuvwxyz0123456789_')
+                for q in res2:
+                    if q.kind != 'ok': continue
+                    eq = ms.str_eq(q.value.chars, tmp)
+                    if eq is False: continue
+                    m, dt = e2.check(ass + q.pc + [ms.zi(eq), is_ident_start(cs[0])] + [is_ident_part(c) for c in cs[1:]]); r.queries += 1; r.solver_s += dt
+                    r.nontrivial += 1
+                    if m is not None and found is None: found = (e2.concrete_str(m, cs), pre, cnt)
+    if found:
+        name, pre, cnt = found
+        src = 'fn t2() -> int32 { 1 }\nfn t3() -> int32 { 2 }\nfn main() -> unit {\n  let a = t2() + t3() + t2();\n  string_println(int32_to_string(a))\n}\n'
+        d = tempfile.mkdtemp(prefix='vf-c19-')
+        try:
+            open(os.path.join(d, 'main.gom'), 'w').write(src)
+            out = subprocess.run([build.compiler_bin(), 'run', '--dump-go', os.path.join(d, 'main.gom')], capture_output=True, text=True, timeout=60).stdout
+        finally: shutil.rmtree(d, ignore_errors=True)
+        body = out[out.find('func main0'):].split('func main()')[0]
+        import re
+        decl = re.search(r'var (t\d+) int32 = (t2|t3)\(\)', body)
+        ok_ = bool(decl) and any(re.search(r'= %s\(\)' % re.escape(decl.group(1)), l) for l in body[decl.end():].splitlines())
+        r.findings.append(Finding('temporary-captures-user-function', 'a compiler temporary can have the name of a user function: gensym(%r) at counter %d = go_ident(%r) = %r; inside a function body the local then shadows the function' % (pre, cnt, name, name),
+                                  {'user_name': name, 'prefix': pre, 'counter': cnt}, ok_, 'goml functions t2/t3 called twice: emitted main0 = ' + body[:300].replace('\n', ' | ')))
+    r.samples.append({'prefixes': prefixes, 'counters': counters})
+
+_c19_obl = obligations
+def obligations():
+    return _c19_obl() + [Ob('O19.5-temporaries-vs-user-names', 'compiler temporaries never have the name of a user-chosen top-level identifier', ob_gensym_vs_user, ('quick', 'thorough'), 2, {})]
